@@ -553,7 +553,7 @@ PROPS = {
             "read_config_file / precondition of std::env::set_var (key non-empty without '=' / NUL: proved for the 11 setting names; value without NUL: carried from the per-line check through strip_comment, the replace chain, split_once and join) - requires a NUL-free `prefix` argument",
             "UrlPath::extract_parts_from_pattern / postcondition / parts_ok(res): tokens and static texts alternate, static texts are non-empty, tokens have a name",
         ],
-        "assumptions": ["entry points NOT under contract (listed so that the claim is not read as complete; explored by the `parsers` routine on every run): (UrlPath: all four functions are under contract; the pattern parser guarantees the alternation of parts that the three consumers unwrap on), JSONArrayOfObjects::from_json / JSONArrayOfNulls (user traits), Header / Content-Range value parsers other than those of the response reader",
+        "assumptions": ["entry points NOT under contract (listed so that the claim is not read as complete; explored by the `parsers` routine on every run): JSONArrayOfObjects::from_json / JSONArrayOfNulls (they go through user-implemented traits). All four UrlPath functions, the configuration reader and the request accessors ARE under contract",
                         "JSON scanners (JSON::parse_as_properties, RawUnprocessedJSONArray::split_into_vector_of_strings, the typed list readers): totality is proved for inputs below 2 GiB (i32 bracket counters); std::io::Cursor::read_exact / read_until, char::is_numeric / is_ascii_control / is_whitespace, <T as FromStr> are assumed std contracts",
                         "termination is proved; STACK DEPTH is not expressible in a contract: Request::parse, Response::parse, FormMultipartData::parse and the multipart/byteranges reader recurse once per line / per part and overflow a 2 MiB thread stack for inputs of 0.2 - 1 MB (known findings, reproduced on every run by the `stack` routine in child processes)"],
     },
